@@ -317,6 +317,9 @@ theorem jinv_apply (g : G) (a : Action) (h : JInv g) (ht : TInv g.core) :
           simp only [G.core, Core.mk.injEq] at this
           exact this.1
         rw [this]; exact MemLe.refl _
+  | cancelRem p =>
+    simp only [] at hm ⊢
+    exact jinv_of_jrel h (jrel_deliverCancels g _) hm
 
 def Action.isJoinerAct : Action → Bool
   | .join _ | .ctxExit .. | .cancelJoiner _ => true
@@ -345,6 +348,7 @@ theorem jrel_apply (g : G) (a : Action) (ha : a.isJoinerAct = false) : JRel g (g
     · split
       · exact JRel.of_eq rfl rfl
       · exact JRel.trans (JRel.of_eq (g' := { g with sem := g.sem - 1 }) rfl rfl) (jrel_wake _ _)
+  | cancelRem p => exact jrel_deliverCancels g _
 
 theorem jinv_init (p : Policy) : JInv { wait := p } :=
   ⟨by intro j hj; simp at hj, by intro j s hj; simp at hj, by intro j hj; simp at hj⟩
